@@ -31,5 +31,6 @@ HOOK_COMMITS = [
     "3d998c4 verif hook: scripted Stream::Mock variant and verif_client_handler",
     "4dd7ca9 verif hook: HeaderType::verif_category exposes the private sort category",
     "276de69 verif hook: App::verif_default_subapp exposes the registered routes",
+    "e940eba verif hook: thread pool event tracer (thread::verif)",
     "bcab896 verif hook: clock override for the file cache and sessions, cache constructor/state access, verify_connection export",
 ]
